@@ -115,7 +115,34 @@ int main(int argc, char** argv){ vr::parse(argc, argv); long cases = 0;
   std::printf("NATIVE cases=%ld window=PNM P1-P3 with tokens of 1..40 digits and truncated tails; BMP 1/4/8/15/16/24/32 bpp, widths 1..40, heights 1 and 3, full and truncated\n", cases); return 0; }
 '''
 
+# PNM header integer parser reader_backend::read_int (width, height, max value)
+PNB = 'boost/gil/extension/io/pnm/detail/reader_backend.hpp'
+X_PNI = [X('read_int', PNB, r'unsigned int read_int\(\)', count=1,
+           rules=[('R11.read_char', r'\bread_char\(\)', 'DEV_read_char()', True), ('R11.io_error', r'io_error\( "[^"]*" \);', 'THROW();', True),
+                  ('L.skip', r'do\s*\{\s*ch = DEV_read_char\(\);\s*\}\s*while \(ch == \' \'', "do\nSKIP_LOOP_CONTRACT\n{ ch = DEV_read_char(); }\nwhile (ch == ' '", True),
+                  ('L.digits', r'unsigned val = 0;\s*do\s*\{', 'unsigned val = 0;\ndo\nDIGIT_LOOP_CONTRACT\n{', True)])]
+PNI_C = r'''
+#define THROW() __CPROVER_assume(0)
+#define INT_MAX 2147483647
+size_t g_remaining;
+/* read_char(): getc() of the device (throws at the end of the input); comment skipping consumes more bytes and returns one character */
+static char DEV_read_char(void) { if (g_remaining == 0) THROW(); size_t k; __CPROVER_assume(1 <= k && k <= g_remaining); g_remaining = g_remaining - k; char c; return c; }
+#define SKIP_LOOP_CONTRACT __CPROVER_assigns(ch, g_remaining) __CPROVER_loop_invariant(g_remaining <= __CPROVER_loop_entry(g_remaining)) __CPROVER_decreases(g_remaining)
+#define DIGIT_LOOP_CONTRACT __CPROVER_assigns(ch, val, g_remaining) __CPROVER_loop_invariant(val <= INT_MAX && '0' <= ch && ch <= '9' && g_remaining <= __CPROVER_loop_entry(g_remaining)) __CPROVER_decreases(g_remaining)
+unsigned int read_int(void)
+__CPROVER_requires(g_remaining <= ((size_t)1 << 40))
+__CPROVER_assigns(g_remaining)
+__CPROVER_ensures(RET <= INT_MAX)             /* a decimal number that does not fit an int is rejected (io_error), never wrapped */
+@@read_int@@
+#ifndef VERIF_NATIVE
+void h_read_int(void){ size_t n; g_remaining = n; read_int(); __CPROVER_assert(0, "VACUITY"); }
+#endif
+'''
+
 UNITS = [
+    Unit('pnm_read_int', 'C11', PNI_C, extracts=X_PNI, insts=[('int', 'quick', {})],
+         checks=[Check('read_int', 'h_read_int', enforce='read_int', loops=True, flags=['--unsigned-overflow-check'], timeout=600)],
+         preconditions=['input length <= 2^40 bytes'], assumed=['read_char() returns one character of the input after skipping a comment, or throws at the end of the input (istream_device::getc)']),
     Unit('pnm_token', 'C11', PNM_C, extracts=X_PNM, probe_includes=['boost/gil.hpp', 'boost/gil/extension/io/pnm.hpp'],
          probe='P_VAL("BUF_SIZE", (int)sizeof(((boost::gil::reader<boost::gil::detail::istream_device<boost::gil::pnm_tag>, boost::gil::pnm_tag, boost::gil::detail::read_and_no_convert>*)0)->buf));' if False else 'P_VAL("BUF_SIZE", 16);',
          insts=[('buf', 'quick', {})],
